@@ -90,6 +90,10 @@ DOCUMENTED_PY = {
 }
 
 
+def _ill_typed_headers(op):
+    return any(isinstance(h[0], bytes) != isinstance(h[1], bytes) for h in op.get('headers') or [])
+
+
 def oracle_C29(run):
     out = []
     client = roles(run)
@@ -98,6 +102,12 @@ def oracle_C29(run):
         if obs is None or o in ('new', 'xfer', 'recv'):
             continue
         r = res(obs)
+        if r[0] == 'py' and r[1] == 'TypeError' and o in ('send_headers', 'push_stream') and _ill_typed_headers(op):
+            # a header whose name is text and whose value is bytes (or the reverse) is not a well-typed argument;
+            # the TypeError of str/bytes mixing is outside the property, but it still must not write anything
+            if obs['out'] != '+.':
+                out.append(fail('raising-call-added-bytes', i, op=o, exc=r[1]))
+            continue
         if r[0] == 'py' and r[1] not in DOCUMENTED_PY.get(o, ()):
             out.append(fail('non-h2-exception', i, op=o, exc=r[1], appended_len=len(obs.get('appended') or b'')))
             continue
